@@ -69,7 +69,7 @@ theorem tL_pos_band {p : SedovFuncsO3.P} {γ k ω v : ℝ} (hC : O3Consts p γ k
 x2-exponent is non-negative -/
 theorem g_continuousOn3 {p : SedovFuncsO3.P} (s : Set ℝ) (hs : ∀ v ∈ s, Mass.ClosedBases3 p v)
     (hpp1 : 0 ≤ p.a3 + p.omega * p.a2) : ContinuousOn (SedovFuncsO3.L1.g_fun p) s := by
-  unfold SedovFuncsO3.L1.g_fun
+  rw [(funext (EPV.Bridge.Semi.SedovFuncsO3_L1_g_fun p) : SedovFuncsO3.L1.g_fun p = _)]
   refine (((ContinuousOn.rpow_const (by fun_prop) ?_).mul (ContinuousOn.rpow_const (by fun_prop) ?_)).mul
     (ContinuousOn.rpow_const (by fun_prop) ?_)).mul (Real.continuous_exp.comp_continuousOn
       (ContinuousOn.div (by fun_prop) (by fun_prop) ?_))
